@@ -127,6 +127,8 @@ def features(doc):
                     f.add("empty_par")
                 if "s" in ps:
                     f.add("inline_markup")
+                if "/" in ps:
+                    f.add("selfclosed_cell")
                 for i in c:
                     if is_table(i):
                         tab(i, depth + 1)
@@ -567,7 +569,7 @@ def html_rule(cell, path):
     run together, the whole whitespace-normalised"""
     parts = []
     for ii, it in enumerate(cell):
-        if is_table(it):
+        if is_table(it) or it == "/":
             continue
         ip = f"{path}i{ii}"
         parts.append(z3.Concat(txt(ip + "a"), txt(ip + "b")) if it == "s" else par_text(it, ip))
@@ -597,16 +599,103 @@ def html_leaves(doc):
 
 
 def html_shapes():
+    """+ inline markup inside a paragraph ("s") and empty cells serialised in self-closed form (<td/>, <th/>: cell ["/"])"""
     cells = ([], ["p"], ["p", "p"])
     out = [[t] for t in single_tables(True, True, cells, extra_cells=(["s"], ["s", "p"]))]
     out += [d for d in docs(True) if len(d) > 1]
+    SC, P = ["/"], ["p"]
+    for rows in ([[SC]], [[SC, P]], [[P, SC]], [[SC, SC]], [[SC], [P]], [[P], [SC]], [[P, SC], [SC, P]], [[SC, SC], [P, P]], [[P, P], [SC, SC]]):
+        out.append([T(rows)])
+        out.append([T(rows, 1)])
     return out
+
+
+def html_events(doc):
+    """parser events of the serialised document, in document order: ("s", tag) start tag, ("e", tag) end tag, ("se", tag) a
+    self-closed element (<td/>), ("d", text) character data"""
+    ev = []
+
+    def par(it, ip):
+        ev.append(("s", "p"))
+        if it == "s":
+            ev.extend([("d", txt(ip + "a")), ("s", "b"), ("d", txt(ip + "b")), ("e", "b")])
+        elif it == "p":
+            ev.append(("d", txt(ip)))
+        ev.append(("e", "p"))
+
+    def table(t, path):
+        ev.append(("s", "table"))
+        for ri, r in enumerate(t["rows"]):
+            if t["hdr"] and ri == 0:
+                ev.append(("s", "thead"))
+            if t["hdr"] and ri == t["hdr"]:
+                ev.extend([("e", "thead"), ("s", "tbody")])
+            ev.append(("s", "tr"))
+            for ci, c in enumerate(r):
+                ctag = "th" if ri < t["hdr"] else "td"
+                cp = f"{path}.r{ri}c{ci}"
+                if c == ["/"]:
+                    ev.append(("se", ctag))
+                    continue
+                ev.append(("s", ctag))
+                if c == ["p"]:
+                    ev.append(("d", txt(cp + "i0")))
+                else:
+                    for ii, it in enumerate(c):
+                        if is_table(it):
+                            table(it, f"{cp}i{ii}")
+                        else:
+                            par(it, f"{cp}i{ii}")
+                ev.append(("e", ctag))
+            ev.append(("e", "tr"))
+        if t["hdr"]:
+            ev.append(("e", "tbody" if len(t["rows"]) > t["hdr"] else "thead"))
+        ev.append(("e", "table"))
+    ev.append(("s", "body"))
+    for bi, b in enumerate(doc):
+        if is_table(b):
+            table(b, f"b{bi}")
+        else:
+            par("p", f"b{bi}")
+    ev.append(("e", "body"))
+    return ev
+
+
+def feed_events(run, st, me, cls, events):
+    """html.parser.HTMLParser.feed (ASSUMED): calls handle_starttag / handle_endtag / handle_data in document order and
+    handle_startendtag for a self-closed element, whose inherited default is handle_starttag followed by handle_endtag.
+    -> ([states], [(state, exc)])"""
+    own_startend = f"{cls}.handle_startendtag" in run.mod.functions
+    states, raises = [st], []
+    for kind, arg in events:
+        nxt = []
+        for s in states:
+            if kind == "s":
+                r, x = run.method(s, me, cls, "handle_starttag", [VStr(arg), VTuple([])])
+            elif kind == "e":
+                r, x = run.method(s, me, cls, "handle_endtag", [VStr(arg)])
+            elif kind == "d":
+                r, x = run.method(s, me, cls, "handle_data", [VStr(arg)])
+            elif own_startend:
+                r, x = run.method(s, me, cls, "handle_startendtag", [VStr(arg), VTuple([])])
+            else:
+                r1, x = run.method(s, me, cls, "handle_starttag", [VStr(arg), VTuple([])])
+                r = []
+                for s1 in r1:
+                    r2, x2 = run.method(s1, me, cls, "handle_endtag", [VStr(arg)])
+                    r.extend(r2)
+                    x = x + x2
+            nxt.extend(r)
+            raises.extend(x)
+        states = nxt
+    return states, raises
 
 
 def w_html(repo, tier):
     def inst(reg):
         install_str_models(reg)
         reg.module_consts[(HTML, "_RE_WS")] = VExt("RegexWS")
+        reg.method_models[("SuperProxy", "__init__")] = lambda ex, st, o, a, k, n: [(st, NONE)]
         reg.add(FnContract(target=f"{HTML}::_HtmlTextExtractor._format_table_as_text", params=[("self", p_unk()), ("table_data", p_unk())],
                            assumed=True, returns=lambda c: VStr(z3.String(fresh_name("table_text"))), note="text rendering of a table (C02)"))
     run = Run(HTML, repo, inst)
@@ -614,49 +703,32 @@ def w_html(repo, tier):
 
     def one(doc):
         st = State()
-
-        def node(tag, text="", children=()):
-            kids = VRef(st.alloc(HeapObj("list", list(children)), ex.refs))
-            d = {"tag": VStr(tag), "attrs": VRef(st.alloc(HeapObj("dict", {}), ex.refs)), "children": kids,
-                 "text": text if isinstance(text, V) else VStr(text), "tail": VStr("")}
-            return VRef(st.alloc(HeapObj("dict", d), ex.refs))
-
-        def table(t, path):
-            rows = []
-            for ri, r in enumerate(t["rows"]):
-                cells = []
-                for ci, c in enumerate(r):
-                    ctag = "th" if ri < t["hdr"] else "td"
-                    cp = f"{path}.r{ri}c{ci}"
-                    if c == ["p"]:
-                        cells.append(node(ctag, VStr(txt(cp + "i0"))))
-                        continue
-                    items = []
-                    for ii, it in enumerate(c):
-                        ip = f"{cp}i{ii}"
-                        if is_table(it):
-                            items.append(table(it, ip))
-                        elif it == "s":
-                            items.append(node("p", VStr(txt(ip + "a")), [node("b", VStr(txt(ip + "b")))]))
-                        else:
-                            items.append(node("p", VStr(par_text(it, ip))))
-                    cells.append(node(ctag, "", items))
-                rows.append(node("tr", "", cells))
-            if t["hdr"]:
-                rest = rows[t["hdr"]:]
-                rows = [node("thead", "", rows[:t["hdr"]])] + ([node("tbody", "", rest)] if rest else [])
-            return node("table", "", rows)
-        blocks = [table(b, f"b{bi}") if is_table(b) else node("p", VStr(txt(f"b{bi}"))) for bi, b in enumerate(doc)]
-        body = node("body", "", blocks)
         for t in html_leaves(doc):
             st.assume(z3.Length(t) > 0)
-        tables = VRef(st.alloc(HeapObj("list", []), ex.refs))
-        me = VRef(st.alloc(HeapObj("obj", {"root": body, "tables": tables, "_node_cache": VExt("MemoCache"), "_single_node_cache": VExt("MemoCache")},
-                                   "_HtmlTextExtractor", fresh=False), ex.refs))
-        rets, raises = run.call("_HtmlTextExtractor._process_node", {"self": me, "node": body, "depth": VInt(0), "include_tail": VBool(False)}, st)
+        # the tree is built by the REAL _HtmlTreeBuilder handlers from the parser events of the document
+        builder = VRef(st.alloc(HeapObj("obj", {}, "_HtmlTreeBuilder", fresh=False), ex.refs))
+        states, raises = run.method(st, builder, "_HtmlTreeBuilder", "__init__", [])
+        built, out = [], []
+        for s0 in states:
+            ss, xx = feed_events(run, s0, builder, "_HtmlTreeBuilder", html_events(doc))
+            built.extend(ss)
+            raises.extend(xx)
         want = expected_grids(doc, html_rule)
-        return [(s.pc, to_py(s, s.obj(me.ref).data["tables"]), want) for (s, v) in rets], [(s.pc, e) for (s, e) in raises]
-    return run_walker("C13/html_extractor.py::_HtmlTextExtractor._process_node", HTML, html_shapes(), one)
+        for s in built:
+            root = s.obj(builder.ref).data.get("root")
+            kids = ex.concrete_items(s, s.obj(root.ref).data["children"]) if isinstance(root, VRef) and s.obj(root.ref).kind == "dict" else None
+            if not kids:
+                out.append((s.pc, ("?", "tree builder produced no body"), want))
+                continue
+            body = kids[0]
+            tables = VRef(s.alloc(HeapObj("list", []), ex.refs))
+            me = VRef(s.alloc(HeapObj("obj", {"root": root, "tables": tables, "_node_cache": VExt("MemoCache"), "_single_node_cache": VExt("MemoCache")},
+                                      "_HtmlTextExtractor", fresh=False), ex.refs))
+            rets, x2 = run.call("_HtmlTextExtractor._process_node", {"self": me, "node": body, "depth": VInt(0), "include_tail": VBool(False)}, s)
+            raises.extend(x2)
+            out.extend((s2.pc, to_py(s2, s2.obj(me.ref).data["tables"]), want) for (s2, v) in rets)
+        return out, [(s.pc, e) for (s, e) in raises]
+    return run_walker("C13/html_extractor.py::_HtmlTreeBuilder.handlers+_HtmlTextExtractor._process_node", HTML, html_shapes(), one)
 
 
 def w_epub(repo, tier):
@@ -667,72 +739,20 @@ def w_epub(repo, tier):
     ex = run.ex
     cls = "_XhtmlTextExtractor"
 
-    def events(doc):
-        ev = []
-
-        def par(it, ip):
-            ev.append(("s", "p"))
-            if it == "s":
-                ev.extend([("d", txt(ip + "a")), ("s", "b"), ("d", txt(ip + "b")), ("e", "b")])
-            elif it == "p":
-                ev.append(("d", txt(ip)))
-            ev.append(("e", "p"))
-
-        def table(t, path):
-            ev.append(("s", "table"))
-            for ri, r in enumerate(t["rows"]):
-                if t["hdr"] and ri == 0:
-                    ev.append(("s", "thead"))
-                if t["hdr"] and ri == t["hdr"]:
-                    ev.extend([("e", "thead"), ("s", "tbody")])
-                ev.append(("s", "tr"))
-                for ci, c in enumerate(r):
-                    ctag = "th" if ri < t["hdr"] else "td"
-                    cp = f"{path}.r{ri}c{ci}"
-                    ev.append(("s", ctag))
-                    if c == ["p"]:
-                        ev.append(("d", txt(cp + "i0")))
-                    else:
-                        for ii, it in enumerate(c):
-                            if is_table(it):
-                                table(it, f"{cp}i{ii}")
-                            else:
-                                par(it, f"{cp}i{ii}")
-                    ev.append(("e", ctag))
-                ev.append(("e", "tr"))
-            if t["hdr"]:
-                ev.append(("e", "tbody" if len(t["rows"]) > t["hdr"] else "thead"))
-            ev.append(("e", "table"))
-        ev.append(("s", "body"))
-        for bi, b in enumerate(doc):
-            if is_table(b):
-                table(b, f"b{bi}")
-            else:
-                par("p", f"b{bi}")
-        ev.append(("e", "body"))
-        return ev
-
     def one(doc):
         st = State()
         for t in html_leaves(doc):
             st.assume(z3.Length(t) > 0)
         me = VRef(st.alloc(HeapObj("obj", {}, cls, fresh=False), ex.refs))
         states, raises = run.method(st, me, cls, "__init__", [])
-        for kind, arg in events(doc):
-            nxt = []
-            for s in states:
-                if kind == "s":
-                    r, x = run.method(s, me, cls, "handle_starttag", [VStr(arg), VTuple([])])
-                elif kind == "e":
-                    r, x = run.method(s, me, cls, "handle_endtag", [VStr(arg)])
-                else:
-                    r, x = run.method(s, me, cls, "handle_data", [VStr(arg)])
-                nxt.extend(r)
-                raises.extend(x)
-            states = nxt
+        done = []
+        for s0 in states:
+            ss, xx = feed_events(run, s0, me, cls, html_events(doc))
+            done.extend(ss)
+            raises.extend(xx)
         want = expected_grids(doc, html_rule)
-        return [(s.pc, to_py(s, s.obj(me.ref).data["tables"]), want) for s in states], [(s.pc, e) for (s, e) in raises]
-    return run_walker("C13/epub_extractor.py::_XhtmlTextExtractor.handle_starttag+handle_endtag+handle_data", EPUB, html_shapes(), one)
+        return [(s.pc, to_py(s, s.obj(me.ref).data["tables"]), want) for s in done], [(s.pc, e) for (s, e) in raises]
+    return run_walker("C13/epub_extractor.py::_XhtmlTextExtractor.handlers", EPUB, html_shapes(), one)
 
 
 # ====================================================================== sheets ==
@@ -1033,6 +1053,188 @@ def w_ods(repo, tier):
     return a
 
 
+# ========================================================================= RTF ==
+CRX, CMATCH = {}, {}        # side tables: term id -> compiled pattern / match object of the REAL re module
+
+
+def install_concrete_re(reg, rel, repo):
+    """`re` on CONCRETE strings is evaluated by the real `re` module (a pure library function on known arguments); the
+    module-level `_RE_* = re.compile(<literals>)` constants are compiled from their real source text."""
+    import ast as _ast
+    import re as _re
+
+    def rx(c):
+        v = VExt("CRegex")
+        CRX[v.t.get_id()] = c
+        return v
+
+    def mt(m):
+        if m is None:
+            return NONE
+        v = VExt("CMatch")
+        CMATCH[v.t.get_id()] = m
+        return v
+    m = loader.module(rel, repo)
+    for name, node in m.assigns.items():
+        if isinstance(node, _ast.Call) and _ast.unparse(node.func) == "re.compile":
+            try:
+                reg.module_consts[(rel, name)] = rx(eval(compile(_ast.Expression(node), "<module constant>", "eval"), {"re": _re}))
+            except Exception:  # noqa
+                pass
+
+    def consts(ex, vals):
+        out = [ex.py_const(v) for v in vals]
+        return None if any(type(x).__name__ == "_NCType" for x in out) else out
+
+    def m_compile(ex, st, a, k, n):
+        c = consts(ex, list(a) + list(k.values()))
+        if c is None:
+            return ex.havoc_call(st, "re.compile(symbolic)", [], n)
+        return [(st, rx(_re.compile(*c[:len(a)], **dict(zip(k, c[len(a):])))))]
+    reg.ext_models["re.compile"] = m_compile
+    reg.ext_models["re.escape"] = lambda ex, st, a, k, n: [(st, VStr(_re.escape(a[0].const())))] if isinstance(a[0], VStr) and a[0].const() is not None else ex.havoc_call(st, "re.escape", [], n)
+    for flag in ("DOTALL", "IGNORECASE", "MULTILINE"):
+        reg.ext_models[("const", f"re.{flag}")] = VInt(int(getattr(_re, flag)))
+
+    def m_resplit(ex, st, a, k, n):
+        c = consts(ex, a)
+        if c is None or k:
+            return ex.havoc_call(st, "re.split(symbolic)", [], n)
+        return [(st, ex.new_list(st, [ops.lift(x) for x in _re.split(*c)]))]
+    reg.ext_models["re.split"] = m_resplit
+
+    def meth(name):
+        def model(ex, st, o, a, k, n):
+            pat = CRX[o.t.get_id()]
+            if name == "sub" and len(a) == 2 and isinstance(a[0], V) and type(a[0]).__name__ == "VFunc":
+                subject = a[1].const() if isinstance(a[1], VStr) else None
+                if subject is None:
+                    return ex.havoc_call(st, "sub(symbolic)", [], n)
+                out, pos = [], 0
+                for m_ in pat.finditer(subject):
+                    r = ex.call(st, a[0], [mt(m_)], {}, n)
+                    if len(r) != 1 or not isinstance(r[0][1], VStr) or r[0][1].const() is None:
+                        raise Unsupported(f"{ex.loc(n)} regex replacement callback forks or is symbolic")
+                    st = r[0][0]
+                    out.append(subject[pos:m_.start()] + r[0][1].const())
+                    pos = m_.end()
+                return [(st, VStr("".join(out) + subject[pos:]))]
+            c = consts(ex, a)
+            if c is None or k:
+                return ex.havoc_call(st, f"regex.{name}(symbolic)", [], n)
+            r = getattr(pat, name)(*c)
+            if name == "finditer":
+                return [(st, VTuple([mt(x) for x in r]))]
+            if name in ("search", "match", "fullmatch"):
+                return [(st, mt(r))]
+            if name in ("findall", "split"):
+                return [(st, ex.new_list(st, [ops.lift(x) for x in r]))]
+            return [(st, ops.lift(r))]
+        return model
+    for nm in ("finditer", "sub", "search", "match", "fullmatch", "findall", "split"):
+        reg.method_models[("CRegex", nm)] = meth(nm)
+
+    def mmeth(name):
+        def model(ex, st, o, a, k, n):
+            c = consts(ex, a)
+            r = getattr(CMATCH[o.t.get_id()], name)(*(c or []))
+            return [(st, ops.lift(r))]
+        return model
+    for nm in ("start", "end", "group", "groups", "span"):
+        reg.method_models[("CMatch", nm)] = mmeth(nm)
+
+
+RTF = EXTR + "ms_legacy/rtf_extractor.py"
+RTF_FILLER = "Between the tables stands a paragraph that is long enough to count as running text of the document and not as part of a table row at all."
+RTF_LAYOUTS = (("\n", "\\intbl "), ("", "\\intbl "), ("\n", " "), ("\r\n", "\\pard\\intbl "))
+
+
+def rtf_tok(path):
+    import re as _re
+    return "w" + _re.sub(r"[^0-9a-z]", "", path)
+
+
+def rtf_text(doc, row_sep, cell_prefix):
+    """the same serialisation as replay/C13.py::rtf_bytes (rows joined by row_sep: '' = back to back)"""
+    out = "{\\rtf1\\ansi\\deff0{\\fonttbl{\\f0 Arial;}}\\pard Intro paragraph\\par "
+    prev_table = False
+    for bi, b in enumerate(doc):
+        if not is_table(b):
+            out += "\\pard " + RTF_FILLER + " " + rtf_tok(f"b{bi}") + "\\par "
+            prev_table = False
+            continue
+        if prev_table:
+            out += "\\pard " + RTF_FILLER + "\\par "
+        rows = []
+        for ri, r in enumerate(b["rows"]):
+            defs = "".join(f"\\cellx{1500 * (i + 1)}" for i in range(len(r)))
+            cells = ""
+            for ci, c in enumerate(r):
+                pars = ["" if it == "e" else rtf_tok(f"b{bi}.r{ri}c{ci}i{ii}") for ii, it in enumerate(c) if not is_table(it)]
+                cells += cell_prefix + "\\par ".join(pars) + "\\cell"
+            rows.append(f"\\trowd\\trgaph108{defs}{cells}\\row")
+        out += row_sep.join(rows)
+        prev_table = True
+    return out + "\\pard After\\par}"
+
+
+def rtf_docs():
+    P = ["p"]
+    return [[T([[P]])], [T([[P, P]])], [T([[P], [P]])], [T([[P, P], [P, P]])], [T([[P, P], [P, P], [P, P]])],
+            [T([[[], P], [P, []]])], [T([[["p", "p"], P]])], [T([[P]]), T([[P, P], [P, P]])], [T([[P], [P]]), "p", T([[P], [P]])], ["p", T([[P, P]])]]
+
+
+def w_rtf(repo, tier):
+    """_RtfParser._extract_tables (+ _extract_table_cells, _save_table, _strip_rtf_simple, _remove_ignorable_groups) executed by
+    the engine on CONCRETE RTF sources: rectangular tables up to 3 x 2 / 4 x 1, empty and two-paragraph cells, two tables
+    separated by running text, rows newline-separated / CRLF / written back to back, two cell layouts.  (RTF has no table
+    delimiter and pads ragged rows; nested tables are not generated.)"""
+    def inst(reg):
+        import bisect as _bisect
+        install_concrete_re(reg, RTF, repo)
+
+        def conc(fn):
+            def model(ex, st, a, k, n):
+                items = ex.concrete_items(st, a[0]) if a else None
+                vals = [ex.py_const(x) for x in (items or [])] + [ex.py_const(x) for x in a[1:]]
+                if items is None or k or any(not isinstance(v, int) for v in vals):
+                    return ex.havoc_call(st, "bisect(symbolic)", [], n)
+                return [(st, VInt(fn(vals[:len(items)], *vals[len(items):])))]
+            return model
+        for nm in ("bisect_left", "bisect_right", "bisect"):     # stdlib bisect on concrete ints: evaluated by the real function
+            reg.ext_models[f"bisect.{nm}"] = conc(getattr(_bisect, nm))
+    run = Run(RTF, repo, inst)
+    ex = run.ex
+    tally = Tally("C13/rtf_extractor.py::_RtfParser._extract_tables", CLAUSES)
+    cases = [(d, lay) for d in rtf_docs() for lay in (RTF_LAYOUTS if tier == "thorough" else RTF_LAYOUTS[:2])]
+    for doc, (sep, pre) in my_part(cases):
+        shape = {"doc": doc, "row_separator": sep, "cell_prefix": pre}
+        feats = features(doc) + (["rows_back_to_back"] if sep == "" else [])
+        want = [[[z3.StringVal("\n".join("" if it == "e" else rtf_tok(f"b{bi}.r{ri}c{ci}i{ii}") for ii, it in enumerate(c) if not is_table(it)))
+                  for ci, c in enumerate(r)] for ri, r in enumerate(b["rows"])] for bi, b in enumerate(doc) if is_table(b)]
+        try:
+            st = State()
+            me = VRef(st.alloc(HeapObj("obj", {}, "_RtfParser", fresh=False), ex.refs))
+            states, raises = run.method(st, me, "_RtfParser", "__init__", [VUnk("data")])
+            rets = []
+            for s0 in states:
+                r, x = run.method(s0, me, "_RtfParser", "_extract_tables", [VStr(rtf_text(doc, sep, pre))])
+                rets.extend(r)
+                raises.extend(x)
+        except Unsupported as e:
+            for k in CLAUSES:
+                tally.record(k, "unknown", shape, feats, f"OUT-OF-SUBSET {e}"[:200])
+            continue
+        feas = [r for r in raises if _feasible(r[0].pc)]
+        tally.record(CLAUSES[0], "refuted" if feas else "proved", shape, feats, "an exception can escape" if feas else "")
+        if not rets:
+            for k in CLAUSES[1:]:
+                tally.record(k, "refuted", shape, feats, "no normal outcome")
+        for s in rets:
+            compare(tally, s.pc, to_py(s, s.obj(me.ref).data["tables"]), want, shape, feats)
+    return {"obligations": tally.obligations(RTF)}
+
+
 # ======================================================== iterate_tables plumbing ==
 def w_iter(repo, tier):
     """every `iterate_tables` of data_types.py yields, in order, exactly the tables stored on the object / on its units
@@ -1091,4 +1293,4 @@ def w_iter(repo, tier):
     return {"obligations": tally.obligations(DTYPES)}
 
 
-WALKERS = [w_docx, w_odt, w_odp, w_pptx, w_html, w_epub, w_xlsx, w_xls, w_ods, w_iter]
+WALKERS = [w_docx, w_odt, w_odp, w_pptx, w_html, w_epub, w_xlsx, w_xls, w_ods, w_iter, w_rtf]
